@@ -48,7 +48,10 @@ def main():
             if path:
                 ra = m.refinedAlignment
                 emit(dict(t='corr', q=int(ra.query.moleculeId), shift=int(ra.query.shift), r=int(ra.reference.moleculeId), rev=bool(ra.reverseStrand),
-                          index=m.index, peaks=[float(p.position) for p in ra.peaks], pid=os.getpid()))
+                          index=m.index, peaks=[float(p.position) for p in ra.peaks], pid=os.getpid(),
+                          # the refined window starts at (selected primary peak position - secondaryMargin): identifies the selected primary seed
+                          start=float(ra.correlationStart),
+                          primary=[[float(p.position), float(p.height), float(p.score)] for p in m.initialAlignment.peaks]))
 
     exts = []
     if path:
